@@ -89,7 +89,10 @@ def canonicalize_metadata(
         elif isinstance(value, np.ndarray):
             # str() of an array abbreviates long arrays and rounds the entries
             value = f"ndarray({value.dtype}, {value.shape}, {value.tobytes().hex()})"
-        elif isinstance(value, int | float | str) or value is None:
+        elif isinstance(value, str):
+            # Keep strings apart from numbers and None: "1" is not 1
+            value = repr(value)
+        elif isinstance(value, int | float) or value is None:
             value = str(value)
         elif hasattr(value, "ufl_signature"):
             value = value.ufl_signature
